@@ -164,10 +164,11 @@ HIST_WRAPS = ["malloc", "free", "calloc", "realloc", "strndup", "strdup", "abort
 FLAG_DEFS = ["-DRFC6531_FOLLOW_RFC5322", "-DRFC6531_FOLLOW_RFC20", "-DLABELS_ALLOW_UNDERSCORE"]
 
 
-def build_hist(backend, extra=False, flags=False, ndebug=False):
+def build_hist(backend, extra=False, flags=False, ndebug=False, plain=False):
     """history simulator for one backend -> path of executable.  ndebug: the release configuration (-DNDEBUG: assert()
     compiled out of the library; the Makefile's CFLAGS are the user's to set)"""
-    name = "hist-%s%s%s%s" % (backend, "-extra" if extra else "", "-flags" if flags else "", "-ndebug" if ndebug else "")
+    name = "hist-%s%s%s%s%s" % (backend, "-extra" if extra else "", "-flags" if flags else "", "-ndebug" if ndebug else "", "-plain" if plain else "")
+    ASAN = globals()["ASAN"] if not plain else ["-O2", "-g", "-fno-omit-frame-pointer"]      # plain: optimised, no sanitizer (volume runs)
     d = os.path.join(BUILD, name)
     if os.path.isdir(d):
         shutil.rmtree(d)
@@ -200,7 +201,7 @@ def build_hist(backend, extra=False, flags=False, ndebug=False):
     exe = os.path.join(d, "hist")
     wraps = list(HIST_WRAPS) + (["idn2_to_ascii_8z", "idn2_to_ascii_lz", "idn2_lookup_u8", "idn2_lookup_ul",
                                  "idn2_to_unicode_8z8z", "idn2_to_unicode_8zlz", "idn2_to_unicode_lzlz"] if backend == "idn2" else [])
-    run([CXX, "-fsanitize=address,undefined", "-o", exe] + more + objs + ["-lidn2"]
+    run([CXX] + ([] if plain else ["-fsanitize=address,undefined"]) + ["-o", exe] + more + objs + ["-lidn2"]
         + ["-Wl," + ",".join("--wrap=" + w for w in wraps)])
     return exe, ext
 
